@@ -111,6 +111,13 @@ def _c17_reparent_mark(v):
         and m.get("validity_error") is True and "AddMarkStep" in (m.get("A"), m.get("B"))
 
 
+@predicate("C17-reparenting-mark-step-diverges")
+def _c17_reparent_mark_div(v):
+    m = v["mech"]
+    return v["oracle"] == "diverged" and m.get("ancestor_token_removed") is True and m.get("differ_only_in_text_marks") is True \
+        and m.get("token_sequences_equal") is False and "AddMarkStep" in (m.get("A"), m.get("B"))
+
+
 @predicate("C18-payload-placed-outside-isolating")
 def _c18_leak(v):
     m = v["mech"]
